@@ -12,7 +12,12 @@
 (*         only (disallowed), 7 outside the complete set, 8 the infinite   *)
 (*         tail, 9 CPUs only the kernel knows about;                       *)
 (*   nodes 1,2 nodes of the topology, 3 in the complete nodeset only,      *)
-(*         7 outside, 8 the infinite tail.                                 *)
+(*         4 the other nodes of the topology, 7 outside, 8 the infinite    *)
+(*         tail.                                                           *)
+(* Twin configurations: a memory binding request that is not in canonical  *)
+(* form (Bind!CanonCall: nodeset flavour, fixed set) is followed by its    *)
+(* canonical form, so that every tour holds both and trace validation can  *)
+(* compare how the two were handled (Bind!SameHandling).                   *)
 (***************************************************************************)
 EXTENDS Bind, TLC, Json, MC_Bind_cfg
 
@@ -26,6 +31,7 @@ EXTENDS Bind, TLC, Json, MC_Bind_cfg
 VARIABLES cfg,       \* the configuration (never changes)
           st,        \* [aff, mp, mb, ab] as in Bind
           kb,        \* abstract kernel: policy of the test buffer
+          pend,      \* Twin configurations: the canonical form of the last request, to be made next (or NoCall)
           last       \* [c, r] of the last transition (not part of the state: VIEW hides it)
 
 TS        == Cfgs[cfg].TS
@@ -49,14 +55,17 @@ Pols      == Cfgs[cfg].Pols
 Lens      == Cfgs[cfg].Lens
 LoadComps == Cfgs[cfg].LoadComps
 OnlyInit  == Cfgs[cfg].OnlyInit
+Twin      == Cfgs[cfg].Twin
 
 TP == [ts |-> TS, cs |-> CS, cc |-> CC, ca |-> CA, ns |-> NS, nc |-> NC, na |-> NA,
        nodes |-> NodesC, hooks |-> Hooks, kallowed |-> KAllowed, kmems |-> KMems]
 
 MpDefault == [mode |-> 0, nodes |-> {}]
+NoCall == [op |-> "none", flags |-> 0, set |-> {}, pol |-> 0, tgt |-> "main", len |-> 1]
 Init == /\ cfg \in DOMAIN Cfgs
         /\ st = [aff |-> [t \in ThreadsC |-> KAllowed], mp |-> MpDefault, mb |-> Firsttouch, ab |-> Firsttouch]
         /\ kb = MpDefault
+        /\ pend = NoCall
         /\ last = [c |-> [op |-> "none"], r |-> [ret |-> 0]]
 
 (* ------------------------------------------------------------------ *)
@@ -297,10 +306,11 @@ CallT(c) == <<c.op, c.flags, c.set, c.pol, c.tgt, c.len>>
 RECURSIVE Mask(_)
 Mask(S) == IF S = {} THEN 0 ELSE LET x == CHOOSE y \in S : TRUE IN 2^x + Mask(S \ {x})
 B(b) == IF b THEN 1 ELSE 0
-Sid(s, k) == <<Mask(s.aff["main"]), IF "helper" \in ThreadsC THEN Mask(s.aff["helper"]) ELSE 0,
+Sid(s, k, p) == <<Mask(s.aff["main"]), IF "helper" \in ThreadsC THEN Mask(s.aff["helper"]) ELSE 0,
                s.mp.mode, Mask(s.mp.nodes), k.mode, Mask(k.nodes),
                B(s.mb.known), s.mb.pol, B(s.mb.anyn), Mask(s.mb.nodes),
-               B(s.ab.known), s.ab.pol, B(s.ab.anyn), Mask(s.ab.nodes)>>
+               B(s.ab.known), s.ab.pol, B(s.ab.anyn), Mask(s.ab.nodes),
+               IF p.op = "none" THEN "" ELSE ToString(CallT(p))>>
 
 InitSt == [aff |-> [t \in ThreadsC |-> KAllowed], mp |-> MpDefault, mb |-> Firsttouch, ab |-> Firsttouch]
 
@@ -317,12 +327,18 @@ SetMem == \E o \in Ops \cap MemSetOps : \E f \in MemFlagsC : \E S \in MemFam(f) 
 GetMem == \E o \in Ops \cap MemGetOps : \E f \in MemFlagsC : \E ln \in LensFor(o) : Step(Call(o, f, {}, 0, "main", ln))
 Load   == "load" \in Ops /\ \E comp \in LoadComps : Step(Call("load", 0, {}, 0, comp, 1))
 
-Next == /\ OnlyInit => (st = InitSt /\ kb = MpDefault)
-        /\ (SetCpu \/ GetCpu \/ SetMem \/ GetMem \/ Load)
+\* the request and its canonical form differ: the canonical form comes next
+HasTwin(c) == Twin /\ Fixable(TP, c) /\ CanonCall(TP, c) # c
+
+Next == /\ IF pend.op # "none"
+           THEN Step(pend) /\ pend' = NoCall
+           ELSE /\ OnlyInit => (st = InitSt /\ kb = MpDefault)
+                /\ (SetCpu \/ GetCpu \/ SetMem \/ GetMem \/ Load)
+                /\ pend' = IF HasTwin(last'.c) THEN CanonCall(TP, last'.c) ELSE NoCall
         /\ UNCHANGED cfg
 
-Spec == Init /\ [][Next]_<<cfg, st, kb, last>>
-View == <<cfg, st, kb>>
+Spec == Init /\ [][Next]_<<cfg, st, kb, pend, last>>
+View == <<cfg, st, kb, pend>>
 
 (* ------------------------------------------------------------------ *)
 (* the property on the model                                           *)
@@ -334,6 +350,9 @@ SysLegal(sys) == \A i \in 1..Len(sys) :
                    IF sys[i].k = "setaff" THEN sys[i].mask # {} /\ sys[i].mask \subseteq CC
                    ELSE sys[i].mask \subseteq NC
 \* (load discovers a fresh native topology: its masks are only required to be non-empty)
+\* a request and its canonical form are handled alike (on this deterministic kernel: identically)
+StepTwin == Assert(pend.op # "none" => SameHandling(Handling(last.r), Handling(last'.r)),
+                   <<"a request and its canonical form are handled differently", cfg, st, last, last'>>)
 StepLegal == Assert(IF last'.c.op = "load" THEN \A i \in 1..Len(last'.r.sys) : last'.r.sys[i].mask # {} ELSE SysLegal(last'.r.sys),
                     <<"an illegal set reaches the OS", last'>>)
 \* a call that fails without having reached the OS changes nothing
@@ -344,8 +363,8 @@ AffLegal == \A t \in ThreadsC : st.aff[t] # {} /\ st.aff[t] \subseteq KAllowed
 TypeOK == /\ DOMAIN st.aff = ThreadsC
           /\ st.mb.known \in BOOLEAN /\ st.ab.known \in BOOLEAN
 
-EmitInit == (last.c.op = "none") => PrintT(<<"INIT", ToJson([g |-> cfg, s |-> Sid(st, kb)])>>)
-StepChecks == StepOK /\ StepLegal /\ StepClean
+EmitInit == (last.c.op = "none") => PrintT(<<"INIT", ToJson([g |-> cfg, s |-> Sid(st, kb, pend)])>>)
+StepChecks == StepOK /\ StepLegal /\ StepClean /\ StepTwin
 EmitEdge == StepChecks
-            /\ PrintT(<<"EDGE", ToJson([g |-> cfg, s |-> Sid(st, kb), d |-> Sid(st', kb'), c |-> CallT(last'.c)])>>)
+            /\ PrintT(<<"EDGE", ToJson([g |-> cfg, s |-> Sid(st, kb, pend), d |-> Sid(st', kb', pend'), c |-> CallT(last'.c)])>>)
 =============================================================================
